@@ -5,7 +5,7 @@ SPEC = {
         "claim": {
             "category": "exploration",
             "technique": "placeholder",
-            "text": "placeholder",
+            "text": "placeholder After every ST::printf, however it ended, the FILE* is probed from a second thread (a stdio lock left behind is a violation); errno is preset to 0 / ERANGE / EINVAL / EDOM before every call; any ST_ASSERT is judged by the reference interpreter's prediction, never by its message.",
             "level_note": "placeholder",
         },
         "assumptions": [],
